@@ -73,7 +73,8 @@ Definition commuting (k : kind) : bool :=
 Section Builder.
 Variable term : Type.
 (* observations on / constructors of terms; the theorems hold for ANY choice of them *)
-Variable fields_tables : term -> list (option tbl).   (* [f.table for f in t.fields_()] *)
+Variable fields_tables : term -> list (option tbl).   (* [f.table for f in t.fields_()]  (a set keyed by text) *)
+Variable find_tables : term -> list (option tbl).     (* [f.table for f in t.find_(Field)]  (JoinOn.validate) *)
 Variable and_ : term -> term -> term.                 (* a & b  (the effect of  slot &= criterion) *)
 Variable is_empty : term -> bool.                     (* isinstance(t, EmptyCriterion) *)
 Variable field_of : string -> option tbl -> term.     (* Field(name, table=t) *)
@@ -414,9 +415,13 @@ Fixpoint order_loop (fr : list tbl) (order : option string) (acc : list (term * 
 Definition base_tables (fr : list tbl) (upd : option tbl) (w : list (string * term)) : list (option tbl) :=
   map Some fr ++ [upd] ++ map (fun x => Some (Wq (fst x))) w.
 
-(* JoinOn.validate: criterion_tables - (set(base_tables) | {join.item ...} | {self.item}) is empty *)
+(* JoinOn.validate: criterion_tables - (set(base_tables) | {join.item ...} | {self.item}) - {None} is empty *)
 Definition join_valid (bt : list (option tbl)) (joins : list join) (item : tbl) (tabs : list (option tbl)) : bool :=
-  forallb (fun ft => omem ft bt || omem ft (map (fun j => Some (join_item j)) joins) || otbl_eqb ft (Some item)) tabs.
+  forallb (fun ft =>
+             match ft with
+             | None => true
+             | Some _ => omem ft bt || omem ft (map (fun j => Some (join_item j)) joins) || otbl_eqb ft (Some item)
+             end) tabs.
 
 (* do_join's  join.item.alias = join.item._table_name + "2" *)
 Definition auto_alias (bt : list (option tbl)) (item : tbl) : tbl :=
@@ -446,7 +451,7 @@ Definition step_join (fr : list tbl) (upd : option tbl) (w : list (string * term
   match spec with
   | JSOnNone => Err "JoinException"
   | JSOn crit collate =>
-      if join_valid bt joins item1 (map (retag item item1) (fields_tables crit))
+      if join_valid bt joins item1 (map (retag item item1) (find_tables crit))
       then Ok (joins ++ [JOn (auto_alias bt item1) how crit collate], cnt1)
       else Err "JoinException"
   | JSUsing names =>
@@ -602,7 +607,7 @@ Definition render {T} (R : bool -> qstate -> T) (s : qstate) : T :=
 (* ---- the fragment: no join criterion mentions the name of a WITH query added in the same list - *)
 Definition compat (c1 c2 : call) : bool :=
   match c1, c2 with
-  | CJoin _ _ (JSOn crit _), CWith name _ => negb (omem (Some (Wq name)) (fields_tables crit))
+  | CJoin _ _ (JSOn crit _), CWith name _ => negb (omem (Some (Wq name)) (find_tables crit))
   | _, _ => true
   end.
 Definition fragment (l : list call) : Prop := forall c1 c2, In c1 l -> In c2 l -> compat c1 c2 = true.
